@@ -510,3 +510,51 @@ def rule_skip_keystore(ctx, R):
                 if p is not None:
                     R.finding(ins.fn, "index-insert:path-without-link", "after key_index is updated (line %d) a path reaches the exit without linking a node for the new score" % ins.bb_line(i), ins.loc(i),
                               witness=["bb%d %s" % (x, ins.loc(x)) for x in p][:8])
+
+
+class _ExactEq(__import__("boolpath").Spec):
+    """evidence: two scores were compared for exact equality (==, total_cmp/partial_cmp == Equal is
+    not recognised on purpose: only the plain IEEE test is the accepted no-op shortcut)"""
+
+    def stmt(s, b, bbi, st):
+        import boolpath
+        r = st["r"]
+        if r["k"] == "bin" and r.get("op") in ("Eq", "Ne") and r.get("ty") == "f64" and not op_is_const(r["a"]) and not op_is_const(r["b"]):
+            return boolpath.A if r["op"] == "Eq" else boolpath.N
+        return None
+
+
+def ok_blocks(b):
+    """blocks that build the function's `Ok(..)` result"""
+    out = []
+    for i, bb in enumerate(b.bbs):
+        for st in bb["s"]:
+            if st["k"] == "=" and st["l"]["l"] == 0 and not st["l"]["p"] and st["r"]["k"] == "agg" and st["r"]["a"].endswith("Result::Ok"):
+                out.append(i)
+    return out
+
+
+def rule_latest(ctx, R):
+    """`each member once with its latest score`: an engine method that writes scores (it calls
+    SkipList::insert with a caller-supplied score) returns success only after such a call -- or
+    after an exact `==` between the stored and the new score (nothing to change)"""
+    import boolpath
+    n = 0
+    for fn, b in sorted(shared.engine_bodies(ctx.prog).items()):
+        sites = [i for i, t in b.calls() if SKIP_INSERT.match(t["f"] or "")]
+        if not sites or b.kind == "Closure":
+            continue
+        oks = ok_blocks(b)
+        try:
+            ex = boolpath.explore(b, _ExactEq(), stop=sites)
+        except boolpath.TooManyStates as e:
+            R.broken.append(str(e)); continue
+        for k, i in enumerate(oks):
+            n += 1
+            bad = i in ex.reached
+            R.inst(fn, "success-return#%d" % k, {"function": fn[len(ENGINE):], "at": b.loc(i), "only_after_score_stored_or_exactly_equal": not bad})
+            if bad:
+                R.finding(fn, "success-return#%d:score-not-stored" % k,
+                          "%s can return success (line %d) on a path that neither hands the score to SkipList::insert nor established by an exact `==` that the stored score already equals it: the member keeps a stale score and position" % (fn.split("::")[-1], b.bb_line(i)), b.loc(i),
+                          ["bb%d line %d" % (x, b.bb_line(x)) for x in ex.witness(b, i)][-10:])
+    R.floor("score_writer_success_returns", n)
